@@ -147,7 +147,7 @@ def k_optsort(c):
     items = [(k, NoLt(i)) for i, k in enumerate(keys)]
     out = [p[1].i for p in sorted(items)]
     r = ','.join(map(str, out))
-    return f'optsort 0|{key_fields(keys)}', r, [str(keys[i]) for i in out]
+    return f'optsort {key_fields(keys)}', r, [str(keys[i]) for i in out]
 
 
 def k_optstr(c):
@@ -216,29 +216,93 @@ def k_buildopts(c):
             return 6
         return 7
     keys = [k for k, _ in before]
-    line = f'buildopts 0|{key_fields(keys)}|{",".join(str(kind(k)) for k in keys)}|{key_fields(base_it)}'
+    line = f'buildopts {key_fields(keys)}|{",".join(str(kind(k)) for k in keys)}|{key_fields(base_it)}'
     r = ';'.join(enc(n) + '/' + enc(s) for n, s in rows)
     return line, r, rows
 
 
-def k_testdeps(c):
-    from mesonbuild import mintro
-    from mesonbuild.backend.backends import TestSerialisation, TestProtocol
-    from mesonbuild.mesonlib import MachineChoice
-    it = list(mkset(c['items']))
-    ts = TestSerialisation('n', 'p', ['s'], ['exe'], False, None, False, True, [], {}, False, 0, 30, None, [],
-                           TestProtocol.EXITCODE, 0, True, True, it, '1.0', False, 'exe')
-    out = mintro.get_test_list([ts])[0]['depends']
-    return f'testdeps {enc_list(it)}', enc_list(out), None
+_TS = {}
 
 
-def k_ldpath(c):
+def _testser_classes():
+    """stand-ins that satisfy the isinstance checks of the real Backend.create_test_serialisation"""
+    if _TS:
+        return _TS
+    from mesonbuild import build
+
+    class FakeSL(build.SharedLibrary):
+        def __init__(self, d):
+            self._d = d
+
+        def get_builddir(self):
+            return self._d
+
+        def __hash__(self):
+            return hash(self._d)
+
+        def __eq__(self, o):
+            return self is o
+
+    class FakeBT(build.BuildTarget):
+        def __init__(self, i, libs):
+            self._i = i
+            self._libs = libs
+
+        def type_suffix(self):
+            return '@fake'
+
+        def get_id(self):
+            return self._i
+
+        def get_all_link_deps(self):
+            return self._libs
+
+        def __hash__(self):
+            return hash(self._i)
+
+        def __eq__(self, o):
+            return self is o
+    _TS.update(SL=FakeSL, BT=FakeBT)
+    return _TS
+
+
+def k_testser(c):
+    """the real Backend.create_test_serialisation (collects `depends` and the shared-library directories
+    in sets) followed by the real mintro.get_test_list"""
+    from mesonbuild import mintro, programs
+    from mesonbuild.backend.backends import Backend, TestProtocol
     from mesonbuild.utils.core import EnvironmentVariables
-    it = list(mkset(c['items']))
-    env = EnvironmentVariables()
-    env.prepend('LD_LIBRARY_PATH', list(it), ':')
-    out = env.get_env({})['LD_LIBRARY_PATH']
-    return f'ldpath {enc_list(it)}', enc(out), None
+    K = _testser_classes()
+    mach = types.SimpleNamespace(is_windows=lambda: False, is_cygwin=lambda: False, is_darwin=lambda: False,
+                                 get_exe_suffix=lambda: '')
+
+    class Machines:
+        def __getitem__(self, k):
+            return mach
+
+        def matches_build_machine(self, m):
+            return True
+    env = types.SimpleNamespace(get_build_dir=lambda: '/b', is_cross_build=lambda m=None: False,
+                                get_exe_wrapper=lambda: None, machines=Machines(), need_exe_wrapper=lambda *a: False,
+                                coredata=types.SimpleNamespace(version='1.0'))
+    be = object.__new__(Backend)
+    be.environment = env
+    exe = programs.ExternalProgram('prog', command=['/bin/true'], silent=True)
+    libs = {d: K['SL'](d) for d in c['libdirs']}
+    deps = [K['BT'](i, [libs[d] for d in ls]) for i, ls in c['deps']]
+    t = types.SimpleNamespace(priority=0, get_exe=lambda: exe, cmd_args=[], depends=deps, env=EnvironmentVariables(),
+                              is_parallel=True, expected_fail=False, expected_exitcode=0, timeout=30, workdir=None,
+                              protocol=TestProtocol.EXITCODE, verbose=False, get_name=lambda: 'n', project_name='p',
+                              suite=['s'])
+    r = mintro.get_test_list(Backend.create_test_serialisation(be, [t]))[0]
+    ld = r['env'].get('LD_LIBRARY_PATH', '')
+    used = []
+    for _i, ls in c['deps']:
+        for d in ls:
+            if os.path.join('/b', d) not in used:
+                used.append(os.path.join('/b', d))
+    line = f'testser {enc_list([i for i, _ in c["deps"]])}|{enc_list(used)}'
+    return line, enc_list(r['depends']) + '#' + enc(ld), [r['depends'], ld]
 
 
 def k_depnames(c):
